@@ -76,6 +76,7 @@ impl<C: Config, Q: Query> Snapshot<C, Q> {
         };
 
         let entry = self.engine().executor_registry.get_executor_entry::<Q>();
+        crate::verif_pause!("x.before", Some(self.query_id()));
 
         let result = entry.invoke_executor::<Q>(query, &tracked_engine).await;
 
@@ -85,6 +86,7 @@ impl<C: Config, Q: Query> Snapshot<C, Q> {
         // modify the query's state.
         drop(tracked_engine);
         wait_group.wait().await;
+        crate::verif_pause!("x.executed", Some(self.query_id()));
 
         let is_in_scc = lock_guard.query_computing().is_in_scc();
 
@@ -114,6 +116,7 @@ impl<C: Config, Q: Query> Snapshot<C, Q> {
         let query = query.clone();
 
         async move {
+            crate::verif_pause!("x.g.start", Some(self.query_id()));
             let old_kind = self.query_kind().await;
             let existing_forward_edges = self.forward_edge_order().await;
 
@@ -147,6 +150,7 @@ impl<C: Config, Q: Query> Snapshot<C, Q> {
                             write_buffer,
                         )
                         .await;
+                    crate::verif_pause!("x.g.dirty", Some(self.query_id()));
                 }
 
                 (
